@@ -52,6 +52,7 @@ CheckFix(e, k) == /\ ida[e] # NoId /\ Cardinality(AllWithId(ida[e])) = 1
                   /\ Len(ChildrenOfKind(e, "Sig")) = 1
                   /\ FirstSig(e) = ParsedSig(e)
                   /\ SRef(sorig[ParsedSig(e)]) = ida[e]
+                  /\ ~Filtered(sorig[ParsedSig(e)])        \* only the enveloped-signature and exclusive c14n transforms
                   /\ ToolOK(k, ida[e])
 SigStateBy(e, k, fix) == IF ParsedSig(e) = 0 THEN "absent"
                           ELSE IF (IF fix THEN CheckFix(e, k) ELSE CheckCur(e, k)) THEN "valid" ELSE "invalid"
@@ -72,7 +73,7 @@ Cfgs == {[wantResp |-> TRUE, wantAssert |-> FALSE, wantEither |-> FALSE],
          [wantResp |-> FALSE, wantAssert |-> TRUE, wantEither |-> FALSE],
          [wantResp |-> FALSE, wantAssert |-> FALSE, wantEither |-> TRUE],
          [wantResp |-> TRUE, wantAssert |-> TRUE, wantEither |-> FALSE]}
-Satisfiable(c) == (c.wantResp => Level # "assertion") /\ (c.wantAssert => Level # "response")
+Satisfiable(c) == (c.wantResp => LevelBase # "assertion") /\ (c.wantAssert => LevelBase # "response")
 
 (***************************************************************************)
 (* Contract of C01                                                         *)
@@ -82,6 +83,7 @@ DirectSigs(e) == Range(ChildrenOfKind(e, "Sig"))
 Covers(e) == /\ Cardinality(DirectSigs(e)) = 1
              /\ LET s == CHOOSE x \in DirectSigs(e) : TRUE IN
                 /\ ida[e] # NoId /\ SRef(sorig[s]) = ida[e]
+                /\ ~Filtered(sorig[s])                    \* a filtering signature digests something else than e
                 /\ Hash(e, s) = Dig(sorig[s])
 Safe(c) == /\ kind[root] = "Resp" /\ Len(ParsedAsrts) = 1
            /\ \A s \in IdentitySources : content[s] = "genuine"
@@ -89,9 +91,9 @@ Safe(c) == /\ kind[root] = "Resp" /\ Len(ParsedAsrts) = 1
            /\ (c.wantAssert => Covers(TheAsrt))
            /\ (c.wantEither => Covers(root) \/ Covers(TheAsrt))
 MustReject(c) == ~Safe(c)
-MustAccept(c) == edits = 0 /\ Satisfiable(c)
+MustAccept(c) == edits = 0 /\ Satisfiable(c) /\ Level # "assertion_filtered"
 Contract == \A c \in Cfgs : Accepts(c) => Safe(c)
-Controls == edits = 0 => \A c \in Cfgs : Satisfiable(c) => Accepts(c)
+Controls == edits = 0 /\ Level # "assertion_filtered" => \A c \in Cfgs : Satisfiable(c) => Accepts(c)
 
 (***************************************************************************)
 (* Initial (genuine) document and attacker edits                            *)
@@ -102,16 +104,16 @@ Lowest == CHOOSE n \in Free : \A m \in Free : n <= m
 Init ==
     /\ root = 1 /\ edits = 0
     /\ kind = [n \in Node |-> CASE n = 1 -> "Resp" [] n = 2 -> "Asrt"
-                                [] n = 3 -> IF Level = "response" THEN "free" ELSE "Sig"
-                                [] n = 4 -> IF Level = "assertion" THEN "free" ELSE "Sig"
+                                [] n = 3 -> IF LevelBase = "response" THEN "free" ELSE "Sig"
+                                [] n = 4 -> IF LevelBase = "assertion" THEN "free" ELSE "Sig"
                                 [] OTHER -> "free"]
     /\ ida = [n \in Node |-> CASE n = 1 -> "r" [] n = 2 -> "a" [] OTHER -> NoId]
     /\ content = [n \in Node |-> IF n \in {1, 2} THEN "genuine" ELSE "-"]
-    /\ kids = [n \in Node |-> CASE n = 1 -> (IF Level = "assertion" THEN <<2>> ELSE <<4, 2>>)
-                                [] n = 2 -> (IF Level = "response" THEN <<>> ELSE <<3>>)
+    /\ kids = [n \in Node |-> CASE n = 1 -> (IF LevelBase = "assertion" THEN <<2>> ELSE <<4, 2>>)
+                                [] n = 2 -> (IF LevelBase = "response" THEN <<>> ELSE <<3>>)
                                 [] OTHER -> <<>>]
-    /\ sorig = [n \in Node |-> CASE n = 3 -> (IF Level = "response" THEN "-" ELSE "A")
-                                 [] n = 4 -> (IF Level = "assertion" THEN "-" ELSE "R")
+    /\ sorig = [n \in Node |-> CASE n = 3 -> (IF LevelBase = "response" THEN "-" ELSE "A")
+                                 [] n = 4 -> (IF LevelBase = "assertion" THEN "-" ELSE "R")
                                  [] OTHER -> "-"]
 
 CanHold(p, k) == IF kind[p] = "Sig" THEN k = "Obj" ELSE kind[p] \in Elems
@@ -146,7 +148,7 @@ New(k, c, i, p, pos) ==
 \* copy a genuine signature element verbatim somewhere else
 CopySig(o, p, pos) ==
     /\ Free # {} /\ p \in Attached /\ kind[p] \in Elems
-    /\ (o = "A" => Level # "response") /\ (o = "R" => Level # "assertion")        \* o = "X": attacker-made
+    /\ (o = "A" => LevelBase # "response") /\ (o = "R" => LevelBase # "assertion")        \* o = "X": attacker-made
     /\ LET m == Lowest IN
        /\ kind' = [kind EXCEPT ![m] = "Sig"] /\ sorig' = [sorig EXCEPT ![m] = o]
        /\ kids' = [kids EXCEPT ![p] = Place(@, m, pos), ![m] = <<>>]
@@ -228,7 +230,7 @@ Spec == Init /\ [][Next]_vars
 \* Seal: the last thing the attacker (like the issuer) can do to an assertion-level document is to encrypt one
 \* top-level assertion, whatever it has become, for the SP's public key.  The SP then sees plain and decrypted
 \* assertions side by side; the identity it reports must still come from genuine, covered content.
-Sealable == IF Level = "assertion" /\ kind[root] = "Resp" /\ Len(ParsedAsrts) \in {1, 2} THEN Range(ParsedAsrts) ELSE {}
+Sealable == IF LevelBase = "assertion" /\ kind[root] = "Resp" /\ Len(ParsedAsrts) \in {1, 2} THEN Range(ParsedAsrts) ELSE {}
 Tree == {[n |-> n, kind |-> kind[n], id |-> ida[n], content |-> content[n], kids |-> kids[n],
           orig |-> sorig[n]] : n \in Attached}
 Verdicts == [c \in Cfgs |-> [cfg |-> c, model |-> Accepts(c), pinned |-> AcceptsBy(c, FALSE), mustReject |-> MustReject(c),
